@@ -387,6 +387,14 @@ fn eval_range_i32(op: BinaryOp, val: i32, min: i32, max: i32) -> bool {
 }
 
 fn eval_range_f64(op: BinaryOp, val: f64, min: f64, max: f64) -> bool {
+    // The interpreter compares floats by IEEE-754 totalOrder (arrow-ord `cmp`):
+    // NaN sorts after (and -NaN before) every number, and -0.0 < +0.0. The
+    // IEEE operators below disagree with it exactly there, so stay
+    // conservative: never skip on a NaN literal, nor on a zero literal when
+    // the range touches zero.
+    if val.is_nan() || (val == 0.0 && min <= 0.0 && max >= 0.0) {
+        return true;
+    }
     match op {
         BinaryOp::Eq => min <= val && val <= max,
         BinaryOp::NotEq => !(min == val && max == val),
